@@ -139,11 +139,12 @@ def run(ctx):
     batch, lines, metas = 0, [], []
     allrecs = []
 
-    def flush():
+    def flush(bb=None, env=None):
         nonlocal lines, metas, batch
         if not lines:
             return
-        evs, rc, err = core.run_drv(b, "\n".join(lines) + "\n", wd, "s%d" % batch, fork=True, timeout=1500, env={"VS_EXEC_TIMEOUT": "30"})
+        evs, rc, err = core.run_drv(bb or b, "\n".join(lines) + "\n", wd, "s%d" % batch, fork=True, timeout=1500, env=dict({"VS_EXEC_TIMEOUT": "30"}, **(env or {})))
+        evs = [e for e in evs if e.get("e") not in ("Sched", "Deadlock")]
         recs = core.convert_events(evs)
         execs = core.split_execs(recs)
         out = []
@@ -176,6 +177,32 @@ def run(ctx):
         if len(metas) >= 40:
             flush()
     flush()
+    # the pooled runs once more under the deterministic scheduler, where a chunk job stays in flight for as long as the caller can
+    # run (iter / write / destroy then arrive while jobs are still out) - timing the real-thread runs only reach by luck
+    sb = build.build("sched")
+    k = 0
+    for it in items:
+        if it["maxmem"] >= 2000 or not any(o[0] == "add" for o in it["ops"]):
+            continue
+        k += 1
+        if k > (36 if ctx.quick() else 600):
+            break
+        pool = [1, 2, 3][k % 3]
+        if k % 2 == 0:
+            # every other run is written (mtbl_sorter_write) instead of iterated, right after its last add
+            ops2 = [(("write",) if o[0] == "iter" else o) for o in it["ops"]]
+            if not any(o[0] in ("iter", "write") for o in ops2):
+                ops2.append(("write",))
+            it = dict(it, ops=ops2)
+        L = item_lines(wd, 100000 + k, it, pool)
+        L = [x for x in L if not x.startswith("obs ")]
+        lines += L + ["---"]
+        metas.append({"brief": {"maxmem": it["maxmem"], "pool": pool, "scheduler": True, "ops": [[o[0]] + ([o[1].hex(), o[2]] if o[0] == "add" else []) for o in it["ops"]][:40]}})
+        ctx.add("sorter_runs", 1)
+        ctx.add("scheduled_sorter_runs", 1)
+        if len(metas) >= 40:
+            flush(sb, {"VS_SEED": str(ctx.seed % 100000 + k), "VS_MODE": str(k % 2), "VS_NPRE": "2", "VS_SPUR": "0"})
+    flush(sb, {"VS_SEED": str(ctx.seed % 100000 + 7), "VS_MODE": "1", "VS_NPRE": "2", "VS_SPUR": "0"})
     cov = {"states": ctx.cov.get("states", 0), "transitions": ctx.cov.get("transitions", 0),
            "traces_validated_against_impl": ctx.cov.get("traces_validated_against_impl", 0),
            "evaluations": ctx.cov.get("sorter_runs", 0), "distinct_nontrivial": ctx.cov.get("multi_chunk_candidates", 0), "exhaustive": False}
